@@ -776,13 +776,16 @@ def RebuildProxy(func, token, serializer, kwds):
     """
     Function used for unpickling proxy objects.
     """
-    incref = kwds.pop('incref', True) and not getattr(
-        current_process(), '_inheriting', False
-    )
+    incref = kwds.pop('incref', True)
+    # Unlike the standard version, do not skip `incref` while a new process is
+    # "inheriting" the proxy (i.e. the proxy was an argument of `Process(...)`).
+    # `BaseProxy.__reduce__` has incremented the refcount on behalf of the object
+    # being rebuilt here, so this object must own a reference and release it when
+    # it is garbage collected. With `incref=False` no finalizer is registered and
+    # the pre-increment made in `__reduce__` would never be given back: the hosted
+    # object would stay alive forever.
     obj = func(token, serializer, incref=incref, **kwds)
     # `func` is either `AutoProxy` or a subclass of `BaseProxy`.
-    # TODO: it appears `incref` is True some times and False some others, affecting by the '_inheriting` condition.
-    # Understand the `'_inheriting'` thing.
 
     if incref:
         # Counter the extra `incref` that's done in `BaseProxy.__init__`.
